@@ -143,8 +143,18 @@ def base_kwargs(name, data, fast=True):
 
 
 def spd_array(rng, d):
+  """a symmetric positive definite array in one of the memory layouts a caller may legally pass:
+  C-ordered, Fortran-ordered (e.g. the transpose of a C array), or a strided view"""
   B = grid(rng.standard_normal((d, d)), 4)
-  return B.T.dot(B) + np.eye(d)
+  A = B.T.dot(B) + np.eye(d)
+  layout = int(rng.integers(0, 3))
+  if layout == 1:
+    A = np.asfortranarray(A)
+  elif layout == 2:
+    big = np.zeros((2 * d, 2 * d))
+    big[::2, ::2] = A
+    A = big[::2, ::2]
+  return A
 
 
 def option_variants(name, data, rng):
